@@ -326,14 +326,14 @@ fn main() {
     let ctx = Ctx::new("C13", Level::Exploration);
     ctx.maybe_replay(&replay_value);
 
-    let sizes: Vec<usize> = ctx.pick(vec![8, 12, 20, 40], vec![8, 12, 20, 40, 80, 200]);
+    let sizes: Vec<usize> = ctx.pick(vec![8, 12, 20, 40], vec![8, 12, 20, 40, 80, 120, 200]);
     ctx.set_rule(&format!(
         "case = (dataset, kernel, problem + parameters, solver eps, float type); datasets: 9 lattice-based families \
          (separable blocks, overlapping half-planes with label noise and conflicting duplicates, imbalanced ~1:4 jittered, \
          lattice cluster with two outliers, jittered cloud, exact line, noisy line, sine curve, duplicated abscissae with conflicting targets) \
          x n in {:?}; kernels linear, Gaussian(0.5), Gaussian(5), polynomial (0,2), (1,3); C-SVC: C in {{.01,1,100}} x class weights (1,1),(1,10),(10,1); \
          nu-SVC / one-class: nu in {{.1,.5,1}}; eps-SVR: C in {{.01,1,100}} x eps_loss in {{.1,.5}}; nu-SVR: nu in {{.1,.5,1}} x C in {{.01,1,100}}; \
-         solver eps in {{1e-3,1e-7}}; f32 and f64; members whose eps is below 8 ulp (of the float type) of max(max U * max|K|, max|p|) cannot resolve the stopping rule and are run only in the thorough tier for a small family (n=8, f32, eps 1e-7, linear / Gaussian(.5), one parameter point per problem type) that exercises the iteration cap; nu-SVR with C=100 only in the thorough tier for n<=12; for n>=80 only linear / Gaussian(.5) / polynomial(0,2) and C in {{.01,1}} (the rest needs 10^7 iterations per fit). Every case is fitted with shrinking off and on (classification additionally as Svm<_,Pr>), \
+         solver eps in {{1e-3,1e-7}}; f32 and f64; members whose eps is below 8 ulp (of the float type) of max(max U * max|K|, max|p|) cannot resolve the stopping rule and are run only in the thorough tier for a small family (n=8, f32, eps 1e-7, linear / Gaussian(.5), one parameter point per problem type) that exercises the iteration cap; nu-SVR with C=100 only in the thorough tier for n<=12; for n>=80 only linear / Gaussian(.5) / polynomial(0,2) (the other two kernels need 10^7 iterations per fit there). Every case is fitted with shrinking off and on (classification additionally as Svm<_,Pr>), \
          every fit is one evaluation; non-trivial = the model has at least one non-zero coefficient and the solver made at least one iteration; \
          the whole Cartesian product is run (count asserted).",
         sizes
@@ -343,6 +343,9 @@ fn main() {
     ctx.assume("a coefficient is 'zero' iff published alpha == 0 exactly (the solver's own notion), 'at bound' iff |alpha| >= U*(1-1e-9 [f64] / 1e-4 [f32]) (then only the inequality is demanded), else free; box tolerance 16*eps_machine*U; equality constraints within 4*(nvars+iterations)*eps_machine*max U");
     ctx.assume("weighted_sum / predict vs reference: relative 1e-9 (f64) / 1e-4 (f32) of sum_j |alpha_j| |K|(x_j,x); labels of samples whose reference decision value is inside that band are indeterminate");
     ctx.assume("nu-SVC with nu*n/2 > min(n+, n-) has an empty feasible set: counted out_of_domain (only termination / no panic demanded); Platt calibration failures (PlattError) are counted, not judged (linfa core, not part of this property)");
+    ctx.assume("nu-SVC whose margin r (read from the derived Debug output, the only place it is published) is zero at solver precision, |r| <= 2*eps + rounding, is degenerate (the nu-reduced convex hulls of the classes intersect, w = 0, the 1/r scaling is undefined; libsvm behaves the same): counted indeterminate, not judged");
+    ctx.assume("nu-SVR oracle: |alpha_i| <= C, sum alpha_i = 0, a common tube half-width e >= 0 must exist (free: sign(alpha_i)(y_i-f_i) = e, bounded: >= e, zero: |y_i-f_i| <= e, all within tau), sum|alpha_i| <= C*nu*n, and = C*nu*n when e > 0 (complementary slackness of the nu constraint)");
+    ctx.assume("calibrated models: alpha / rho / weighted_sum bit-identical to the uncalibrated model of the same parameters; Pr in [0,1] and weakly monotone in the model's own decision value with a slack of 4 f32 ulp (Pr is computed in f32); a decision value of exactly 0 has no sign (either label accepted)");
     ctx.assume("termination: SolverState::solve is bounded by 10^7 iterations; a fit that reports 'Reached maximal iterations' and violates KKT is reported as not converged; a case that does not return within 900 s wall is reported as non-terminating");
 
     // ---------------- enumerate ----------------
@@ -396,21 +399,13 @@ fn main() {
         let ymax = d.targets.iter().fold(0.0f64, |m, t| m.max(t.abs()));
         let large = d.x.len() >= 80;
         for k in &kernels {
-            // n >= 80 (thorough): the two ill-conditioned kernels and C = 100 run into the 10^7 iteration cap
-            // (minutes per fit); the breadth of the grid is cut there, not the oracle
+            // n >= 80 (thorough): the two ill-conditioned kernels run into the 10^7 iteration cap (minutes per
+            // fit); the breadth of the grid is cut there, not the oracle
             if large && (*k == Kern::Gaussian(5.0) || *k == Kern::Poly(1.0, 3.0)) {
                 continue;
             }
             let kmax = d.x.iter().map(|a| d.x.iter().map(|b| oracle::kern(k, a, b).abs()).fold(0.0, f64::max)).fold(0.0, f64::max);
             for p in &problems {
-                let c_large = match p {
-                    Problem::CSvc { c_pos, c_neg } => c_pos.min(*c_neg) >= 100.0,
-                    Problem::EpsSvr { c, .. } | Problem::NuSvr { c, .. } => *c >= 100.0,
-                    _ => false,
-                };
-                if large && c_large {
-                    continue;
-                }
                 for &e in &solver_eps {
                     for f in floats {
                         // Domain filter (float resolution): the stopping rule compares gradient differences with
